@@ -10,7 +10,7 @@ HERE = os.path.dirname(os.path.dirname(os.path.abspath(__file__)))
 COMMON_NOTE = ("trusted: Coq 8.16.1 kernel + vm_compute (no native_compute, no extraction); no axioms (Print Assumptions = closed under "
                "the global context for every property theorem); translators/*.py + CPython re._parser/ast (regenerate coq/Gen/*.v from "
                "/repo on every run); the correspondence harness (generators, canonicalisers, coq/Corr/*.v); the hand-written Gallina "
-               "model of the Python logic is tied to the code (a) by pin theorems: 52 functions/fragments of lasio are re-translated from /repo on every run (translators/funcs.py) and proved equal to the model function for every input (the Cxx_*_current theorems), and (b) by evaluating the model inside Coq on the same cases the implementation runs; what is not pinned is "
+               "model of the Python logic is tied to the code (a) by pin theorems: 46 functions/fragments of lasio are re-translated from /repo on every run (translators/funcs.py) and proved equal to the model function for every input (the Cxx_*_current theorems), and (b) by evaluating the model inside Coq on the same cases the implementation runs; what is not pinned is "
                "not verified against the source. ")
 
 P = {}
@@ -42,7 +42,7 @@ P["C03"] = dict(
          "of a section whatever the column widths (widths cover every item), so parsing returns the fields written; value/description order uses the "
          "same generated table on both sides; standardize is idempotent and changes only empty values with a unit. Tie: generated item lists "
          "(duplicates, blanks, each item the widest, punctuation/quotes/brackets) written as 1.2/2.0 and read with preserve/upper/lower. Pins (proved for every input against the functions re-translated from /repo on this run): writer order/formatter/widths, strip_brackets, useful_mnemonic, mnemonic_compare.",
-    note="oracle: num(str(v)) is numerically v for numeric header values (checked per case); ASCII case mapping; blank-mnemonic lines covered by "
+    note="known finding dlm-rewritten; oracle: num(str(v)) is numerically v for numeric header values (checked per case); ASCII case mapping; blank-mnemonic lines covered by "
          "correspondence.",
     design="DESIGN.md 6 C03")
 P["C04"] = dict(
@@ -51,19 +51,19 @@ P["C04"] = dict(
          "returns exactly (MNEM, UNIT, VALUE, DESCR) in every section kind, incl. empty fields, units with interior dots/colons, the last-colon rule, "
          "clock-time colons in ~Parameter (all 24x60 times), 'NAME : VALUE' lines, '1000 lbf' units; total on period/colon lines. The regex ASTs are "
          "CPython's own parse of the pattern strings in the source today (C04_patterns_current), so an edited pattern breaks a proof obligation. Pins: configure_metadata_patterns' pattern selection and read_header_line's field post-processing equal the model for every line (translated from the source on every run).",
-    note="\\d modelled as ASCII digits, \\s as str.isspace; pattern selection logic hand-modelled (tied by correspondence on every generated line).",
+    note="\\d modelled as ASCII digits, \\s as str.isspace; pattern selection and the whole of read_header_line are pinned (C04_selection_current, C04_read_header_line_current).",
     design="DESIGN.md 6 C04")
 P["C05"] = dict(
     technique="Coq proof (induction over the block list: section table and body slices; steering frame lemmas) + correspondence over all section permutations",
     text="C05_cut/C05_bodies: for any number, order and size of blocks the section table lists exactly the titles and the slice read for section i "
          "is exactly body i (inner and last sections alike; nothing dropped, duplicated or shared); classification depends only on the upper-cased "
          "letter; only ~V (VERS/WRAP/DLM) and ~W (NULL) can change steering values, other sections never do; routing writes one slot. Tie: all 120 "
-         "permutations of {W,C,P,O,custom} with ~A at every position, documented title spellings in both cases, steering names planted in ~P/custom. Pins: determine_section_type and the section router of LASFile.read equal the model for every title.",
+         "permutations of {W,C,P,O,custom} with ~A at every position, documented title spellings in both cases, steering names planted in ~P/custom. Pins: determine_section_type, the section router and the steering block of LASFile.read equal the model for every title / section.",
     note="LAS 1.2/2.0 titles (LAS 3.0 section handling outside the model); that parse of body i yields the intended items is C03/C04.",
     design="DESIGN.md 6 C05")
 P["C06"] = dict(
     technique="Coq proof (cell-wise iff, parametric in the equality oracle) + correspondence over NULL spellings/policies/engines",
-    text="C06_iff/C06_iff_cellwise: a cell becomes NaN iff it lies in a float column other than the index and equals NULL under the numeric-equality "
+    text="C06_read_null / C06_read_cell_iff (any successful read, both engines; pin C06_null_bind_current on the NULL loop of LASFile.read); unfolding lemmas C06_iff/C06_iff_cellwise: a cell becomes NaN iff it lies in a float column other than the index and equals NULL under the numeric-equality "
          "oracle; index kept; text columns untouched; policy none changes nothing; lengths preserved — for every column and every oracle. Tie: NULL in "
          "{-999.25,-9999,0,999,1e30,...} in several spellings, near-NULL (+-1ulp), index/text columns, both engines, strict/none, wrapped; then "
          "write->read keeps NaN positions and NaN is emitted as the NULL value.",
@@ -71,7 +71,7 @@ P["C06"] = dict(
     design="DESIGN.md 6 C06")
 P["C07"] = dict(
     technique="Coq proof (reshape/transpose/bind lemmas for unbounded d, c, r) + correspondence with coordinate-carrying cells",
-    text="reshape n (concat rows) = rows; column j of the transpose is the j-th entries; bind_columns yields max(d,c) curves, declared curves keep "
+    text="C07_read_rectangular / C07_read_one_data_shape (any successful read, both engines, several ~A sections; pins C07_bind_current, C07_n_columns_current); reshape n (concat rows) = rows; column j of the transpose is the j-th entries; bind_columns yields max(d,c) curves, declared curves keep "
          "order and metadata, surplus columns become unnamed curves after them, curves without a column are NaN-filled of the common length; the "
          "normal engine binds cell (i,j) to element i of curve j. Tie: d in 0..7, c <,=,> d, r in {1,2,3,22}, wrapped at 1..c tokens per line, both engines.",
     note="WRAP=YES claimed for c = d and whole-step lines with c >= d (a wrapped file with fewer values per step than curves is ambiguous).",
@@ -88,7 +88,7 @@ P["C09"] = dict(
     text="Blank/comment line insertion in header and data bodies, padding of line ends, CRLF, final newline, re-wrapping at token boundaries leave "
          "parse_body / the engines' token lists unchanged (lemmas for a single change at an arbitrary site; compositions by induction). Tie: 1-6 random "
          "transformations applied to the example corpus and generated bases (WRAP=YES, DLM COMMA/TAB, custom sections, inner ~A).",
-    note="inside the modelled fragment (LAS 1.2/2.0, default options); ~Other keeps blank lines; the sniffing window is covered by correspondence.",
+    note="inside the modelled fragment (LAS 1.2/2.0, default options); ~Other keeps blank lines; the sniffer is covered by C09_sniff_blank after fixes d2ac2bb/5035e7a and pinned (C09_inspect_current); known finding delimited-text-padding.",
     design="DESIGN.md 6 C09")
 P["C10"] = dict(
     technique="Coq proof (dispatch and encoding-choice decision tables, channel independence under explicit codec hypotheses) + channel/encoding/newline tuples and history correspondence",
@@ -120,7 +120,7 @@ P["C13"] = dict(
     technique="Coq proof (invariant by induction over operation sequences, refuted at the known clash) + exhaustive short operation sequences",
     text="Inv (distinct session names, each resolves to its own item, blanks shown as UNKNOWN, originals never altered) holds initially and is "
          "preserved by append/insert/delete/replace for sequences of any length under no_suffix_clash (the recorded finding: A, A, A:1); numbering "
-         "post-condition; closed form of the names after reading; round trip of names. C13_I1_refuted exhibits the clash by vm_compute. Pins: useful_mnemonic, mnemonic_compare.",
+         "post-condition; closed form of the names after reading; round trip of names. C13_I1_refuted exhibits the clash by vm_compute. Pins: useful_mnemonic, mnemonic_compare, assign_duplicate_suffixes, append, insert, set_item.",
     note="known finding suffix-clash (statement's clauses jointly unsatisfiable there); object aliasing not expressible; file level checked on the implementation.",
     design="DESIGN.md 6 C13")
 P["C14"] = dict(
@@ -134,7 +134,7 @@ P["C14"] = dict(
 P["C15"] = dict(
     technique="Coq proof (pointwise laws on arbitrary section states) + exhaustive operation/probe sequences",
     text="For every section state and string key: membership iff item access succeeds, first match, attribute access agrees, missing key -> KeyError, "
-         "get() pure / add appends exactly one, set-value and delete frames, int keys and slices as list positions. Pins: SectionItems.__contains__/__getitem__ for str keys re-translated and proved equal to the model.",
+         "get() pure / add appends exactly one, set-value and delete frames, int keys and slices as list positions. Pins: SectionItems.__contains__/__getitem__/__delitem__ for str keys re-translated and proved equal to the model.",
     note="two language-level exclusions are explicit hypotheses (list attribute names; non-string membership); ASCII case folding.",
     design="DESIGN.md 6 C15")
 P["C16"] = dict(
@@ -143,7 +143,7 @@ P["C16"] = dict(
          "with units change; in-memory VERS untouched; a second write gives identical text and state; when the index was created/changed or STOP "
          "disagrees, STRT/STOP/STEP carry the formatted first/last/first-increment and aligned units. Tie: read / scratch / edited index / edited curve "
          "/ edited header, 11 option sets, 1-3 writes: every text and the full snapshot compared. Pin: the writer's value standardisation.",
-    note="'to format precision' = the text CPython prints (oracle fmtv/fmt_diff); STRT/STOP/STEP keyword arguments left to lasio.",
+    note="known finding duplicate-wrap; 'to format precision' = the text CPython prints (oracle fmtv/fmt_diff); STRT/STOP/STEP keyword arguments left to lasio; index column numeric/NaN.",
     design="DESIGN.md 6 C16")
 P["C17"] = dict(
     technique="Coq proof (rebuild o reduce = id on the item/section model) + pickle protocols 0-5 and deepcopy correspondence and implementation-side oracle",
@@ -172,7 +172,7 @@ P["C19"] = dict(
 P["C20"] = dict(
     technique="Coq proof (verified leak analysis sound for all programs and fault sequences, applied by vm_compute to skeletons translated from the source ast) + exhaustive fault injection",
     text="partial by nature: proved — for every fault sequence no control path of the skeletons translated from read/write/to_csv/open_file/"
-         "open_with_codecs/adhoc_test_encoding leaves a file lasio opened open; write/to_csv never close a caller-supplied object; every observed "
+         "open_with_codecs/adhoc_test_encoding/convert_version leaves a file lasio opened open; write/to_csv never close a caller-supplied object; every observed "
          "open/close event sequence is a run of the skeleton (acceptor proved sound). Tie: OSError injected at every k-th low-level I/O operation of "
          "every call kind plus each input-induced failure class.",
     note="assumed: the translator marks every raising statement; close() closes; handles opened by urlopen/openpyxl not in the model.",
@@ -221,7 +221,7 @@ def main():
                                        "generated case files evaluated with vm_compute (coq/Corr), driver ./check + harness/"}],
         "checks": checks,
         "not_applicable": na,
-        "notes": "Every property is decided by machine-checked proof in Coq tied to /repo by translators (regexes, tables, I/O skeletons, and the bodies of 52 functions/fragments proved equal to the model functions) and a "
+        "notes": "Every property is decided by machine-checked proof in Coq tied to /repo by translators (regexes, tables, I/O skeletons, and the bodies of 46 functions/fragments proved equal to the model functions) and a "
                  "vm_compute correspondence; see DESIGN.md. known_findings.txt lists the fixed defects (`fixed:`) and the known findings (`known:`, each with a replay under corpus/).",
     }
     with open(os.path.join(HERE, "MANIFEST.json"), "w") as f:
